@@ -34,7 +34,7 @@ ASSUMPTIONS = ['integer / dyadic regime: product over cores of max(1, sum|scaled
                'add_many is compared to its rounding accuracy e only (C02 owns its error bound)']
 
 U = 2.0 ** -53
-NUMS = [0, 1, -1, 2, 0.5, -3.0, 1e-17, -2e-30]
+NUMS = [0, 1, -1, 2, 0.5, -3.0, 1e-17, -2e-30, np.float64(-0.25), True]
 
 
 def is_num(x):
